@@ -8,17 +8,18 @@ parameter).  Every theorem holds for every `expand`, every plaintext column, ran
 secret, stream and error — no head-room is needed: the statements are equalities of the two
 computations, not of their values.
 
-/- Serialisation: `glwe_compressed_serialise_decompress`, `gglwe_compressed_serialise_decompress` (the latter is also
-   the wire format of GGSWCompressed and GLWETensorKeyCompressed) are theorems in C18's byte-level model; the
-   switching / automorphism / GGLWE→GGSW / blind-rotation wrappers (extra header fields, containers of the former)
-   are tied by bytes only.
-   FULL STATEMENT (not proved as stated): "for every compressed layout, decompress ∘ encrypt_compressed
-   = cell-wise standard encryption with the stored seeds".  Proved for the cell (`compressed_cell_eq`,
-   any plaintext column — the GGSW case), for GLWE (`glwe_decompress_eq`) and for every matrix routine
-   built on the shared loop (`compressed_cells_eq`: GGLWE, GGSW, and through them switching /
-   automorphism / tensor keys, which call `gglwe_compressed_encrypt_sk` on the caller's object).
-   The GGLWE→GGSW key (two levels of `branch()`) is reduced to the same loop by `g2g_subkeys_eq`
-   (after the repairs of the two findings: seeds stored in the object, decompression implemented). -/
+/- Serialisation commutes with decompression for ALL twelve compressed types, in C18's byte-level model:
+   `glwe_compressed_serialise_decompress`, `gglwe_compressed_serialise_decompress` (explicit forms),
+   `matrix_compressed_serialise_decompress` (8 matrix-shaped types), `vector_compressed_serialise_decompress` (GLWE, LWE),
+   `container_compressed_serialise_decompress` (GGLWE→GGSW key, blind-rotation key; new cursor-level round trip).
+   FULL STATEMENT: "for every compressed layout, decompress ∘ encrypt_compressed = cell-wise standard encryption with the
+   stored seeds".  Proved for the cell (`compressed_cell_eq`), for GLWE (`glwe_decompress_eq`), for every matrix routine built
+   on the shared loop (`compressed_cells_eq`: GGLWE, GGSW, switching / automorphism keys), for the routines with their scratch
+   temporary as the Rust runs them (`matrix_temporary_irrelevant`), the tensor key (`tensor_key_compressed_eq`), the
+   GGLWE→GGSW key (`g2g_subkeys_eq`) and the compressed blind-rotation key (`brk_subkeys_eq`).
+   LWE: no compressed encryption routine exists; `lwe_compress_decompress` is the inverse statement; the real
+   `decompress_lwe` only accepts dimension 1 — `lwe_decompress_partial`, `lwe_decompress_counterexample` (finding).
+   Not reachable: compressed circuit-bootstrapping key (module not compiled). -/
 -/
 import Poulpy.Lemmas.CoreCmp
 import Poulpy.Lemmas.CoreSerDec
